@@ -36,8 +36,15 @@ def build(case):
         kw["ignore_bins"] = {"ig%d" % i: vsc.bin(*items(b, True)) for i, b in enumerate(case["ignore"])}
     if case["illegal"]:
         kw["illegal_bins"] = {"il%d" % i: vsc.bin(*items(b, True)) for i, b in enumerate(case["illegal"])}
+    # where the auto-bin limit is given: on the coverpoint, on the covergroup (the coverpoint inherits it), or on both
+    # (the coverpoint's wins); the coverpoint may carry other options of its own
+    at = case.get("abm_at", "cp")
     if case["kind"] == "auto":
-        kw["options"] = dict(auto_bin_max=case["auto_bin_max"])
+        o = dict(case.get("cp_opts") or {})
+        if at in ("cp", "both"):
+            o["auto_bin_max"] = case["auto_bin_max"]
+        if o:
+            kw["options"] = o
     enum_t = None
     if case["kind"] == "enum":
         enum_t = IntEnum("E", {"e%d" % i: v for i, v in enumerate(case["enum"])})
@@ -45,6 +52,10 @@ def build(case):
     @vsc.covergroup
     class cg(object):
         def __init__(self):
+            if case["kind"] == "auto" and at == "cg":
+                self.options.auto_bin_max = case["auto_bin_max"]
+            elif case["kind"] == "auto" and at == "both":
+                self.options.auto_bin_max = case["auto_bin_max"] + 3
             if enum_t is not None:
                 self.with_sample(dict(a=vsc.enum_t(enum_t), en=vsc.bit_t(1)))
             else:
